@@ -354,7 +354,7 @@ class World:
         fbil = Path(key)
         fhdr = fbil.with_suffix(".hdr")
         route = cs.weighted("route", [("hdr", 4), ("bil", 3), ("stream", 3),
-                                      ("zip", 2)])
+                                      ("zip", 4)])
         self.log.ev("load", str(fbil.relative_to(self.root)), route)
         with warnings.catch_warnings():
             warnings.simplefilter("ignore")
@@ -372,7 +372,7 @@ class World:
                         with open(fhdr, "r") as sh, open(fbil, "rb") as fd:
                             g = Grid.from_stream(sh, fd)
                 else:
-                    fz = fbil.parent / f"pack{self.nid}.zip"
+                    fz = fbil.parent / "pack.zip"
                     inner = cs.choice("inner", ["", "dir/"])
                     with zipfile.ZipFile(str(fz), "w") as z:
                         z.write(str(fhdr), inner + fhdr.name)
@@ -770,3 +770,8 @@ def run(cs, log, ctx):
                 w.check_all(kind)
     if w.mutated and w.compared:
         ctx.hit("nontrivial")
+
+
+def warmup():
+    import pandas, zipfile, scipy.ndimage, scipy.interpolate  # noqa: F401,E401
+    from hydrodiy.gis import grid  # noqa: F401
